@@ -26,7 +26,9 @@ RULE = (
     'without commas, f8/f4), values 0 or +-[1e-30,1e30] incl. 7-digit '
     'rounding boundaries, per-variable missing codes from typical (-9999, '
     '-99999, -9999999, -8888.8, -999.9, 9999999) and adversarial (>= 8 '
-    'significant digits: -99999999, -9999.9999, ...) sets as int or float, '
+    'significant digits: -99999999, -9999.9999, ...; text of 12-18 '
+    'characters: -999999999999, -9999.123456789, -99999999999999999, ...) '
+    'sets as int or float, '
     'random masks (none / some / all), 0-6 single-line header attributes '
     '(ICARTT keywords and neutral names, text values with : , ; =, empty, '
     'blank-only or with leading/trailing blanks, or plain numbers), '
@@ -73,6 +75,11 @@ MISS_TYPICAL = [-9999, -9999, -99999, -999999, -9999999, -8888.8, -999.9,
                 -9999.0, -7777, 9999999, -999]
 MISS_LONG = [-99999999, -999999999, -9999.9999, -99999.999, 99999999,
              -1234567.8, -99999999.0]
+# codes whose text is longer than any %.6e number (12-18 characters)
+MISS_LONGTEXT = [-999999999999, -9999.123456789, 99999999999999,
+                 -1234567890.12345, -99999999999999999, -8888.88888888,
+                 -999999999.999, 123456789012345, -9.99999999999e+30,
+                 -99999.0000001]
 ATTRKEYS = ['PI_CONTACT_INFO', 'PLATFORM', 'LOCATION', 'ASSOCIATED_DATA',
             'INSTRUMENT_INFO', 'DATA_INFO', 'UNCERTAINTY', 'DM_CONTACT_INFO',
             'PROJECT_INFO', 'STIPULATIONS_ON_USE', 'OTHER_COMMENTS',
@@ -142,7 +149,8 @@ def cases(draw, tier='quick'):
     deps = []
     for k in range(ndep):
         dt = draw(st.sampled_from(['f8', 'f8', 'f4']))
-        pool = MISS_TYPICAL + (MISS_LONG * 2 if long_ok else [])
+        pool = MISS_TYPICAL + ((MISS_LONG + MISS_LONGTEXT) * 2
+                               if long_ok else [])
         miss = draw(st.sampled_from(pool))
         maskkind = draw(st.sampled_from(['none', 'some', 'some', 'some',
                                          'all']))
@@ -436,6 +444,11 @@ def check_case(spec):
         r.label('all-masked-var')
     if _long_codes(spec):
         r.label('missing>7digits')
+    if any(len(str(d['missing'])) >= 12 for d in deps):
+        r.label('missing-text>=12chars')
+        if any(len(str(d['missing'])) >= 12 and any(d['mask'])
+               for d in deps):
+            r.label('missing-text>=12chars+masked')
     if any(isinstance(d['missing'], float) for d in deps):
         r.label('missing-float')
     if any(d['missing'] > 0 for d in deps):
